@@ -84,4 +84,10 @@ CLAIMED["C20"] = {
     "technique": "Lean 4 theorems over a hand-written model + differential correspondence check",
 }
 
+CLAIMED["C13"] = {
+    "text": "Theorems: a non-negative integer literal up to u64::MAX is accepted with exactly its value (int_literal_exact); negative literals are rejected, never wrapped (negative_literal_rejected; -0 is 0); a string is accepted iff it spells (optional +, 0b/0o/0x or decimal digits) an integer below 2^256, with exactly that value, and never with a leading - (string_exact, decimal_string_accepted, hex_string_accepted, malformed_strings_rejected); other JSON kinds are rejected, results are below 2^256 and the deserialiser never panics (wrong_kind_rejected, uint_range_no_panic, parse_no_panic); byte fields need 0x + even hex, addresses exactly 20 bytes, storage keys exactly 32 (bytes_field, address_field, storage_key_field). PARTIAL for float-syntax literals: serde_json rounds them to binary64 first; the kernel-checked witnesses float_rounding_cex1..3 (1.0000000000000001 -> 1, 1e-400 -> 0, 9007199254740991.0 -> 9007199254740990) are the KNOWN FINDING float-literal-rounding, reported as KNOWN-FINDING and not repaired (needs serde_json arbitrary_precision + exact decimal parsing; refusing floats would break the pinned 13.37e9 test). The binary64 / serde_json number model is cross-checked against serde_json on thousands of literals per run (op json.f64); every numeric field x spelling x boundary value and a malformed stream are judged by exact rational arithmetic.",
+    "note": COMMON_NOTE + " serde_json number parsing is modelled (software binary64) and cross-tested, not proved.",
+    "technique": "Lean 4 theorems over a hand-written model + differential correspondence check; known finding recorded",
+}
+
 NOT_YET = {}
